@@ -68,6 +68,66 @@ fn golden_monitor_binding(ctx: &Ctx, golden_findings: &mut Vec<Viol>) -> u64 {
         n += 1;
     }
     ctx.log(&format!("golden binding: {} decode vectors of the repository's tests replayed under the monitor without alarm", n));
+    n + hook_fidelity(ctx)
+}
+
+/// The hooks are only as good as they are complete: every state within three symbols of the two
+/// roots is duplicated (`verif_clone`) and rebuilt from its snapshot (`verif_restore`), and the
+/// original, the duplicate and the rebuilt decoder must answer four continuations identically.
+/// A field of the decoder that the hooks do not carry shows up here as a machinery exit instead of
+/// silently making E1's state merging unsound.
+fn hook_fidelity(ctx: &Ctx) -> u64 {
+    use sml_rs::transport::Decoder;
+    let alpha = full_alphabet();
+    let conts: Vec<Vec<Sym>> = vec![vec![Sym::Frame(1)], vec![Sym::PadLie(1), Sym::Fin], vec![Sym::Esc, Sym::Tail(0), Sym::Reset], vec![Sym::B(0x1b), Sym::Esc, Sym::Som, Sym::B(0x00), Sym::Esc, Sym::Tail(3)]];
+    let mut n = 0u64;
+    for root in [vec![], vec![Sym::Esc, Sym::Som]] {
+        let mut paths: Vec<Vec<Sym>> = vec![root.clone()];
+        for _ in 0..3 {
+            let mut next = vec![];
+            for p in &paths {
+                for &s in &alpha {
+                    let mut q = p.clone();
+                    q.push(s);
+                    next.push(q);
+                }
+            }
+            for p in next.iter().step_by(3) {
+                let (node, _) = rebuild(BufKind::Vec, p);
+                let snap = node.dec.snap();
+                let restored: Box<dyn Dec> = match Decoder::<Vec<u8>>::verif_restore(&snap) {
+                    Some(d) => Box::new(d),
+                    None => crate::report::machinery(&format!("hook fidelity: verif_restore fails on the state after [{}]", path_str(p))),
+                };
+                if restored.snap() != snap || node.dec.dup().snap() != snap {
+                    crate::report::machinery(&format!("hook fidelity: snapshot not reproduced after [{}]", path_str(p)));
+                }
+                for c in &conts {
+                    let mut outs = vec![];
+                    for mut d in [node.dec.dup(), node.dec.dup().dup(), restored.dup()] {
+                        let mut mon = crate::mon::Mon::new(None);
+                        let mut o = vec![];
+                        let mut nd = Node { dec: d.dup(), mon: mon.clone(), kind: BufKind::Vec };
+                        let mut g = Gen2::default();
+                        for &s in c {
+                            let mut info = StepInfo::default();
+                            info.want_outs = true;
+                            nd.apply(s, &mut info, &mut g);
+                            o.push(info.outs);
+                        }
+                        let _ = (&mut d, &mut mon);
+                        outs.push(o);
+                    }
+                    if outs[0] != outs[1] || outs[0] != outs[2] {
+                        crate::report::machinery(&format!("hook fidelity: a duplicated / restored decoder behaves differently from its original after [{}] on continuation [{}] - the hooks do not carry the complete decoder state", path_str(p), path_str(c)));
+                    }
+                    n += 1;
+                }
+            }
+            paths = next;
+        }
+    }
+    ctx.log(&format!("hook fidelity: {} (state, continuation) pairs: original, verif_clone and verif_restore agree", n));
     n
 }
 
